@@ -559,7 +559,7 @@ class Ctx:
     def _check_quick(self, neg):
         """incremental solver with a short budget (it is weak on non-linear
         integer arithmetic; a fresh solver does much better there)"""
-        self._set_timeout(min(self.timeout_ms, 2000))
+        self._set_timeout(min(self.timeout_ms, 500))
         try:
             return self._check(neg)
         finally:
